@@ -116,6 +116,15 @@ def amplifier_tap() -> Dict[str, Any]:
     return cfg
 
 
+def seed_and_flag() -> Dict[str, Any]:
+    """data_manipulation with BOTH seeding options of the game block set: a configured seed and generate_seed_value (the
+    documented rule: a seed that is given wins over the flag)."""
+    cfg = scenarios.shipped("data_manipulation.yaml")
+    cfg["game"]["seed"] = 7
+    cfg["game"]["generate_seed_value"] = True
+    return cfg
+
+
 def amplifier_scripted() -> Dict[str, Any]:
     """One LAN with every kind of scripted agent that draws: a random-agent, two periodic agents (several start nodes,
     start and period variance), a red-database-corrupting-agent and two probabilistic agents, next to a proxy agent."""
@@ -176,6 +185,7 @@ def main(tier: str, seed: int) -> int:
         ("data_manipulation_without_optional_blocks", {"cfg": without_optional_blocks()}, 78),
         ("amplifier_equal_cost_routes", {"cfg": amplifier_equal_cost()}, 3),
         ("amplifier_scripted_agents", {"cfg": amplifier_scripted()}, 3),
+        ("data_manipulation_seed_and_generate_flag", {"cfg": seed_and_flag()}, 78),
     ]
     if tier == "thorough":
         scen += [
